@@ -60,7 +60,7 @@ def sc(**kw):
     """constants of SimCrash"""
     c = dict(LatSteps=1, Tick=2, Cap=1, MaxConn=1, Ops={"listen", "accept", "connect", "read", "write"},
              Faults={"crash", "bounce"}, Targets={1}, MaxOps=5, MaxFaults=1, MaxSteps=5, Lis=1,
-             LatChoices=set(), MaxLat=0, Writers={1, 2}, WriterFixed=True, HalfOpenFixed=True)
+             LatChoices=set(), MaxLat=0, Writers={1, 2}, Early=False, WriterFixed=True, HalfOpenFixed=True)
     c.update(kw)
     return c
 
@@ -97,6 +97,10 @@ def mc_configs(pid, tier):
                                TOuts={"none", "Never"}, RandomOrder=True, CtlOps={"register", "step", "bounce"},
                                MaxCtl=5)),
         ]
+        # repeated / idempotent fault calls: crash of a crashed or finished host, bounce of a running host, ...
+        cfgs.append(("mc_clock_refault", sr(Tick=3, Duration=100, MaxNodes=1, Kinds={"host"}, Waits={1}, MaxPat=1,
+                                            Outs={"Never", "Ok"}, TOuts={"none"},
+                                            CtlOps={"register", "step", "crash", "bounce"}, MaxCtl=8 if q else 10)))
         if not q:
             cfgs.append(("mc_clock_t1", sr(Tick=1, Duration=100, Waits={1, 3}, MaxPat=2, Outs={"Never", "Ok"},
                                            TWaits={2}, TOuts={"none", "Never"}, MaxNodes=2,
@@ -116,7 +120,8 @@ def mc_configs(pid, tier):
             ("mc_crash_udp", sc(Ops=UDP, Targets={1, 2}, MaxOps=4 if not q else 3, MaxFaults=2, MaxSteps=4 if not q else 3)),
             # latency changed between sends: segments overtake each other, reorder buffer, capacity 2
             ("mc_crash_reorder", sc(Ops={"listen", "accept", "connect", "write", "read"}, Faults={"crash"}, Targets={1},
-                                    Writers={2}, Cap=2, LatChoices={1, 3}, MaxLat=2, MaxOps=6, MaxFaults=1, MaxSteps=6)),
+                                    Writers={2}, Early=True, Cap=2, LatChoices={1, 3}, MaxLat=2, MaxOps=6 if q else 7,
+                                    MaxFaults=1, MaxSteps=6 if q else 7)),
             # connector's turn first (Lis = 2): accept() returns at once and the stream is used in the same turn
             ("mc_crash_conn_first", sc(Ops=TCP, Targets={1}, Lis=2, MaxOps=4 if q else 5, MaxFaults=1 if q else 2,
                                        MaxSteps=4 if q else 5)),
@@ -147,6 +152,10 @@ def gen_configs(pid, tier):
                 ("gen_clock_t5", sr(Tick=5, Duration=100, Waits={1, 2, 7}, MaxPat=1, Outs={"Ok", "Never"}, TWaits={3},
                                     TOuts={"none", "Never"}, CtlOps={"register", "step", "bounce"}, MaxCtl=4,
                                     DetTies=True))]
+        cfgs.append(("gen_clock_refault", sr(Tick=3, Duration=100, MaxNodes=1, Kinds={"host"}, Waits={1}, MaxPat=1,
+                                             Outs={"Never", "Ok"}, TOuts={"none"},
+                                             CtlOps={"register", "step", "crash", "bounce"}, MaxCtl=8 if q else 9,
+                                             DetTies=True)))
         if not q:
             cfgs.append(("gen_clock_t3", sr(Tick=3, Duration=100, Waits={2, 7}, MaxPat=2, Outs={"Never", "Ok"},
                                             TWaits={1}, TOuts={"none", "Never"},
@@ -164,8 +173,8 @@ def gen_configs(pid, tier):
                 # segments overtake each other (set_link_latency between sends): the crashed host's unread data
                 # sits only in the reorder buffer, the peer is parked in write (capacity 2, needs 6 operations)
                 ("gen_crash_reorder", sc(Ops={"listen", "accept", "connect", "write"}, Faults={"crash"}, Targets={1},
-                                         Writers={2}, Cap=2, LatChoices={1, 3}, MaxLat=2, MaxOps=6, MaxFaults=1,
-                                         MaxSteps=6)),
+                                         Writers={2}, Early=True, Cap=2, LatChoices={1, 3}, MaxLat=2, MaxOps=6,
+                                         MaxFaults=1, MaxSteps=6)),
                 # the mirror image: the acceptor is the parked writer, the connector holds unread data and crashes
                 ("gen_crash_writer_acc", sc(Ops={"listen", "accept", "connect", "write"}, Faults={"crash"}, Targets={2},
                                             MaxOps=5, MaxFaults=1, MaxSteps=6))]
@@ -178,7 +187,10 @@ def gen_configs(pid, tier):
                     ("gen_crash_writer", sc(Ops={"listen", "accept", "connect", "write"}, Faults={"crash", "bounce"},
                                             Targets={1}, MaxOps=6, MaxFaults=1, MaxSteps=6)),
                     ("gen_crash_writer_acc", sc(Ops={"listen", "accept", "connect", "write"}, Faults={"crash", "bounce"},
-                                                Targets={2}, MaxOps=6, MaxFaults=1, MaxSteps=6))]
+                                                Targets={2}, MaxOps=6, MaxFaults=1, MaxSteps=6)),
+                    ("gen_crash_reorder", sc(Ops={"listen", "accept", "connect", "write", "read"},
+                                             Faults={"crash", "bounce"}, Targets={1}, Writers={2}, Early=True, Cap=2,
+                                             LatChoices={1, 3}, MaxLat=2, MaxOps=6, MaxFaults=1, MaxSteps=6))]
         return cfgs
     raise ValueError(pid)
 
@@ -249,7 +261,7 @@ def impl_trace_consts(pid, a):
     if is_crash(pid):
         return dict(LatSteps=a["lat"], Tick=a["tick"], Cap=a["cap"], MaxConn=100000, Ops=TCP | UDP,
                     Faults={"crash", "bounce"}, Targets={1, 2}, MaxOps=10 ** 6, MaxFaults=10 ** 6, MaxSteps=10 ** 6,
-                    LatChoices=set(range(1, 17)), MaxLat=10 ** 6, Writers={1, 2},
+                    LatChoices=set(range(1, 17)), MaxLat=10 ** 6, Writers={1, 2}, Early=False,
                     WriterFixed=True, HalfOpenFixed=True, Lis=a.get("lis", 1))
     return dict(Tick=a["tick"], Duration=a["duration"], Epoch=a["epoch"], MaxNodes=1000, Kinds=KINDS, Waits=set(),
                 MaxPat=0, Outs=set(), TWaits=set(), MaxTPat=0, TOuts=set(), RandomOrder=True, CtlOps=ALL_OPS,
